@@ -223,6 +223,30 @@ def r1(ctx, r):
     la = ctx.locks()
     cg = ctx.cg()
     common.guarded_by(r, fb, la, BQ + "::_queue", BQ + "::_mutex")
+    # The lockset analysis (locks.py) gives a function the locks of its call sites, a cv predicate those of its wait.  It has no entry
+    # state for code that is HANDED a held lock or is run by another function of the class on the caller's behalf: a function (or a
+    # lambda nested in one) with a lock-object reference parameter (`awaitSpace(std::unique_lock<std::mutex>& lock)`), and a lambda
+    # passed as an argument to a function of the class that invokes it under its own lock (`enqueue(item, [this](Lock&) { … })`).
+    # "Held: nothing" there says the analysis could not see the lock, not that there is none: such a report is a refusal.
+    def handed_lock(f, depth=0):
+        if f is None or depth > 4:
+            return None
+        if any(("unique_lock" in (p_.get("t") or "") or "lock_guard" in (p_.get("t") or "") or "scoped_lock" in (p_.get("t") or "")) for p_ in f.params):
+            return "%s receives a lock object as parameter" % short(f.name)
+        if f.kind == "lambda":
+            role = cg.lambda_role.get(f.name, {})
+            if role.get("role") == "arg" and (role.get("callee") or "").startswith(BQ + "::"):
+                return "%s is passed to %s, which decides under which lock it runs" % (short(f.name), short(role["callee"]))
+            return handed_lock(f.enclosing, depth + 1)
+        return None
+    refused = []
+    for fl_ in list(r.failures):
+        for f in fb.by_name.get(fl_["function"], []):
+            why = handed_lock(f)
+            if why:
+                r.failures.remove(fl_)
+                refused.append("%s [%s]: %s" % (short(fl_["function"]), fl_["construct"], why))
+                break
     # an access inside an internal helper stands for one access per calling context (the lockset of the helper's entry is the
     # intersection over exactly those call sites, locks.py): count it that way, so that the floor keeps measuring "the rule sees
     # the queue's operations" when duplicated code is folded into a helper
@@ -232,6 +256,8 @@ def r1(ctx, r):
             if k > 1:
                 r.instance(k - 1)
     r.floor(20, "access sites of _queue")
+    if refused:
+        raise AnalysisBroken("C10-R1: the lockset of code that is handed its lock is not followed — %s" % "; ".join(sorted(set(refused))[:4]))
 
 
 def _stands_for(f, c, src):
@@ -533,7 +559,18 @@ def r3(ctx, r):
         if x.kind != "stmt":
             return False
         gs = _helper_fns(fb, BQ, x.node)
-        return bool(gs) and any(impure(g) for g in gs)
+        if gs:
+            return any(impure(g) for g in gs)
+        # a call this rule cannot look into that may wait or change the queue on this function's behalf: it is handed the lock object
+        # (`spaceReady(lock)`), or it invokes a callable that is a parameter of the function (a policy passed in by the caller)
+        n = x.node
+        if n.get("k") in ("call", "mcall", "opcall") and not (n.get("callee") or "").startswith("std::"):
+            args = [strip_wrappers(a) for a in n.get("args", []) if isinstance(a, dict)]
+            if any(a is not None and a.get("k") == "var" and (a.get("t") or "").replace("const ", "").startswith(("std::unique_lock", "std::lock_guard", "std::scoped_lock")) for a in args):
+                return True
+            if n.get("k") == "opcall" and n.get("op") == "()" and args and args[0] is not None and args[0].get("k") == "var" and args[0].get("parm") is not None:
+                return True
+        return False
     pas = {}
     building = set()
 
@@ -1030,8 +1067,10 @@ def _is_capacity(f, cls, n):
 
 
 def _is_used(f, cls, n):
-    """head - tail"""
+    """head - tail (written out, or a local initialised with it)"""
     n = strip_casts(n)
+    if n is not None and n.get("k") == "var":
+        n = strip_casts(_local_init(f, n))
     return n is not None and n.get("k") == "bin" and n["op"] == "-" and _is_index_load(f, cls, n["lhs"], "_head") and _is_index_load(f, cls, n["rhs"], "_tail")
 
 
@@ -1141,6 +1180,14 @@ def _bound_obligation(r5, f, cls, role, be, bn, fb=None):
     for b in f.blocks.values():
         if b.term and b.term["k"] in ("ForStmt", "WhileStmt") and b.cond is not None:
             c = strip_casts(b.cond)
+            # pointer-range spelling of the counted loop: `for (p = base, end = base + n; p != end; ++p)` runs n times — the limit is n
+            if c.get("k") == "bin" and c["op"] == "!=" and dominated_by_edge(f, be, b, 0, eh=False):
+                for (pv, ev) in ((strip_casts(c["lhs"]), strip_casts(c["rhs"])), (strip_casts(c["rhs"]), strip_casts(c["lhs"]))):
+                    if pv.get("k") == "var" and ev.get("k") == "var":
+                        pi, ei = strip_casts(_local_init(f, pv)), strip_casts(_local_init(f, ev))
+                        if pi is not None and ei is not None and ei.get("k") == "bin" and ei.get("op") == "+" and show(strip_casts(ei["lhs"])) == show(pi):
+                            c = {"k": "bin", "op": "<", "lhs": pv, "rhs": ei["rhs"]}
+                            break
             if c.get("k") == "bin" and c["op"] == "<" and dominated_by_edge(f, be, b, 0, eh=False):
                 lim = strip_casts(c["rhs"])
                 init = _local_init(f, lim) if lim.get("k") == "var" else lim
